@@ -1353,7 +1353,8 @@ impl<'q, Q: Query> View<'q, Q> {
         Q: QueryShared,
     {
         let meta = self.meta.get(entity.id as usize)?;
-        if meta.generation != entity.generation {
+        // Entities that are reserved but not yet flushed have no location
+        if meta.generation != entity.generation || meta.location.index == u32::MAX {
             return None;
         }
 
@@ -1374,7 +1375,8 @@ impl<'q, Q: Query> View<'q, Q> {
         let Some(meta) = self.meta.get(entity.id as usize) else {
             return false;
         };
-        if meta.generation != entity.generation {
+        // Entities that are reserved but not yet flushed have no location
+        if meta.generation != entity.generation || meta.location.index == u32::MAX {
             return false;
         }
         self.fetch[meta.location.archetype as usize].is_some()
@@ -1387,7 +1389,8 @@ impl<'q, Q: Query> View<'q, Q> {
     /// Must not be invoked while any unique borrow of the fetched components of `entity` is live.
     pub unsafe fn get_unchecked(&self, entity: Entity) -> Option<Q::Item<'_>> {
         let meta = self.meta.get(entity.id as usize)?;
-        if meta.generation != entity.generation {
+        // Entities that are reserved but not yet flushed have no location
+        if meta.generation != entity.generation || meta.location.index == u32::MAX {
             return None;
         }
 
@@ -1545,7 +1548,8 @@ impl<'q, Q: Query> PreparedView<'q, Q> {
         Q: QueryShared,
     {
         let meta = self.meta.get(entity.id as usize)?;
-        if meta.generation != entity.generation {
+        // Entities that are reserved but not yet flushed have no location
+        if meta.generation != entity.generation || meta.location.index == u32::MAX {
             return None;
         }
 
@@ -1566,7 +1570,8 @@ impl<'q, Q: Query> PreparedView<'q, Q> {
         let Some(meta) = self.meta.get(entity.id as usize) else {
             return false;
         };
-        if meta.generation != entity.generation {
+        // Entities that are reserved but not yet flushed have no location
+        if meta.generation != entity.generation || meta.location.index == u32::MAX {
             return false;
         }
         self.fetch[meta.location.archetype as usize].is_some()
@@ -1579,7 +1584,8 @@ impl<'q, Q: Query> PreparedView<'q, Q> {
     /// Must not be invoked while any unique borrow of the fetched components of `entity` is live.
     pub unsafe fn get_unchecked(&self, entity: Entity) -> Option<Q::Item<'_>> {
         let meta = self.meta.get(entity.id as usize)?;
-        if meta.generation != entity.generation {
+        // Entities that are reserved but not yet flushed have no location
+        if meta.generation != entity.generation || meta.location.index == u32::MAX {
             return None;
         }
 
